@@ -9,6 +9,7 @@ import (
 	"encoding/json"
 	"flag"
 	"fmt"
+	"math"
 	"os"
 	"path/filepath"
 	"sort"
@@ -21,24 +22,91 @@ type cop struct {
 	kind commit.OpType
 	off  uint32
 	val  Val
+	via  int // which of the equivalent writer entry points is used (PutUint16 / PutInt16 / PutAny ...)
 }
 
 var kindCoq = map[commit.OpType]string{commit.Delete: "KDelete", commit.Insert: "KInsert", commit.Put: "KPut", commit.Merge: "KMerge", commit.Skip: "KSkip"}
 
 func (o cop) Coq() string { return fmt.Sprintf("mkop %s %d %s", kindCoq[o.kind], o.off, o.val.Coq()) }
 
+// writeOp writes the operation through one of the writer's equivalent entry points: all of them
+// must produce the bytes of the model's [put]
 func writeOp(b *commit.Buffer, o cop) {
+	via := o.via
 	switch o.val.W {
 	case 0:
-		b.PutOperation(o.kind, o.off)
+		switch {
+		case via%3 == 1 && o.kind == commit.Put:
+			b.PutBool(o.off, true)
+		case via%3 == 1 && o.kind == commit.Delete:
+			b.PutBool(o.off, false)
+		case via%3 == 2:
+			b.PutAny(o.kind, o.off, nil)
+		default:
+			b.PutOperation(o.kind, o.off)
+		}
 	case 2:
-		b.PutUint16(o.kind, o.off, uint16(o.val.N))
+		switch via % 4 {
+		case 1:
+			b.PutInt16(o.kind, o.off, int16(o.val.N))
+		case 2:
+			b.PutAny(o.kind, o.off, uint16(o.val.N))
+		case 3:
+			b.PutAny(o.kind, o.off, int16(o.val.N))
+		default:
+			b.PutUint16(o.kind, o.off, uint16(o.val.N))
+		}
 	case 4:
-		b.PutUint32(o.kind, o.off, uint32(o.val.N))
+		nan := o.val.N&0x7f800000 == 0x7f800000
+		switch via % 5 {
+		case 1:
+			b.PutInt32(o.kind, o.off, int32(o.val.N))
+		case 2:
+			b.PutAny(o.kind, o.off, int32(o.val.N))
+		case 3:
+			if nan {
+				b.PutUint32(o.kind, o.off, uint32(o.val.N))
+			} else {
+				b.PutFloat32(o.kind, o.off, math.Float32frombits(uint32(o.val.N)))
+			}
+		case 4:
+			b.PutAny(o.kind, o.off, uint32(o.val.N))
+		default:
+			b.PutUint32(o.kind, o.off, uint32(o.val.N))
+		}
 	case 8:
-		b.PutUint64(o.kind, o.off, o.val.N)
+		nan := o.val.N&0x7ff0000000000000 == 0x7ff0000000000000
+		switch via % 7 {
+		case 1:
+			b.PutInt64(o.kind, o.off, int64(o.val.N))
+		case 2:
+			b.PutAny(o.kind, o.off, int64(o.val.N))
+		case 3:
+			if nan {
+				b.PutUint64(o.kind, o.off, o.val.N)
+			} else {
+				b.PutFloat64(o.kind, o.off, math.Float64frombits(o.val.N))
+			}
+		case 4:
+			b.PutAny(o.kind, o.off, int(o.val.N))
+		case 5:
+			b.PutAny(o.kind, o.off, uint(o.val.N))
+		case 6:
+			b.PutInt(o.kind, o.off, int(o.val.N))
+		default:
+			b.PutUint64(o.kind, o.off, o.val.N)
+		}
 	default:
-		b.PutBytes(o.kind, o.off, o.val.B)
+		switch via % 4 {
+		case 1:
+			b.PutString(o.kind, o.off, string(o.val.B))
+		case 2:
+			b.PutAny(o.kind, o.off, string(o.val.B))
+		case 3:
+			b.PutAny(o.kind, o.off, append([]byte(nil), o.val.B...))
+		default:
+			b.PutBytes(o.kind, o.off, o.val.B)
+		}
 	}
 }
 
@@ -131,7 +199,7 @@ func genOps(rng *Rng, n int, long bool) []cop {
 			off += 16384
 		}
 		kinds := []commit.OpType{commit.Delete, commit.Insert, commit.Put, commit.Put, commit.Merge, commit.Merge}
-		o := cop{kind: kinds[rng.Intn(len(kinds))], off: off}
+		o := cop{kind: kinds[rng.Intn(len(kinds))], off: off, via: rng.Intn(420)}
 		switch rng.Intn(6) {
 		case 0:
 			o.val = Val{W: 0}
@@ -164,20 +232,20 @@ func genOps(rng *Rng, n int, long bool) []cop {
 }
 
 type codecSummary struct {
-	Engine    string         `json:"engine"`
-	Cases     int            `json:"cases"`
-	Shards    []string       `json:"shards"`
-	TypedReads int           `json:"typed_reads"`
-	Failures  []string       `json:"failures"` // wire / rewrite checks done here
-	Ops       int            `json:"ops"`
-	Kinds     map[string]int `json:"op_kinds"`
-	Widths    map[string]int `json:"value_widths"`
-	Deltas    map[string]int `json:"delta_classes"`
-	MaxLen    int            `json:"longest_sequence"`
-	Samples   []string       `json:"samples"`
-	Rewrites  int            `json:"rewrite_checks"`
-	K2        int            `json:"k2_instances"`
-	WireTrips int            `json:"wire_round_trips"`
+	Engine     string         `json:"engine"`
+	Cases      int            `json:"cases"`
+	Shards     []string       `json:"shards"`
+	TypedReads int            `json:"typed_reads"`
+	Failures   []string       `json:"failures"` // wire / rewrite checks done here
+	Ops        int            `json:"ops"`
+	Kinds      map[string]int `json:"op_kinds"`
+	Widths     map[string]int `json:"value_widths"`
+	Deltas     map[string]int `json:"delta_classes"`
+	MaxLen     int            `json:"longest_sequence"`
+	Samples    []string       `json:"samples"`
+	Rewrites   int            `json:"rewrite_checks"`
+	K2         int            `json:"k2_instances"`
+	WireTrips  int            `json:"wire_round_trips"`
 }
 
 func deltaClass(prev, cur uint32) string {
